@@ -713,6 +713,11 @@ impl Xot {
         F: Fn(Node) -> bool,
         C: Fn(&str, &str) -> bool,
     {
+        // attribute and namespace nodes are not part of a traversal: compare
+        // them by value
+        if !self.value(a).is_normal() || !self.value(b).is_normal() {
+            return self.advanced_compare_value(a, b, &text_compare);
+        }
         let filter_edge = |edge: &NodeEdge| {
             let node = match edge {
                 NodeEdge::Start(node) | NodeEdge::End(node) => *node,
